@@ -55,7 +55,7 @@ type Failure struct {
 
 type compiled struct {
 	p        *Program
-	js       map[string]string // formatter -> JS
+	js       map[string][]string // formatter -> JS of each file of the bundle
 	genErr   map[string]string
 	rejected string
 	goOut    string
@@ -123,13 +123,16 @@ func firstMsg(n ast.Node) *ast.MsgNode {
 
 // translate runs the real compiler, renderer and both JS formatters on p.
 func translate(p *Program) (c *compiled) {
-	c = &compiled{p: p, js: map[string]string{}, genErr: map[string]string{}}
+	c = &compiled{p: p, js: map[string][]string{}, genErr: map[string]string{}}
 	defer func() {
 		if r := recover(); r != nil {
 			c.rejected = fmt.Sprintf("PANIC: %v", r)
 		}
 	}()
 	b := soy.NewBundle().AddTemplateString(p.File.Name, p.File.Text)
+	for _, x := range p.Extra {
+		b.AddTemplateString(x.Name, x.Text)
+	}
 	globals := data.Map{}
 	for k, v := range p.Globals {
 		globals[k] = toValue(v)
@@ -166,11 +169,13 @@ func translate(p *Program) (c *compiled) {
 	}
 	c.goOut, c.goErr = renderGo(reg, p, msgs)
 	for name, f := range map[string]soyjs.JSFormatter{"es5": soyjs.ES5Formatter{}, "es6": soyjs.ES6Formatter{}} {
-		var buf bytes.Buffer
-		if err := soyjs.Write(&buf, reg.SoyFiles[0], soyjs.Options{Formatter: f, Messages: msgs}); err != nil {
-			c.genErr[name] = err.Error()
+		for _, sf := range reg.SoyFiles {
+			var buf bytes.Buffer
+			if err := soyjs.Write(&buf, sf, soyjs.Options{Formatter: f, Messages: msgs}); err != nil {
+				c.genErr[name] = err.Error()
+			}
+			c.js[name] = append(c.js[name], buf.String())
 		}
-		c.js[name] = buf.String()
 	}
 	return
 }
@@ -197,22 +202,22 @@ func renderGo(reg *template.Registry, p *Program, msgs soymsg.Bundle) (out, errs
 }
 
 type stats struct {
-	mu            sync.Mutex
-	programs      int64
-	checks        int64
-	rejected      map[string]int
-	frontend      map[string]int
-	frontendEx    []map[string]string
-	batchOnly     int
-	byPos         map[string]int
-	byWrap        map[string]int
-	lits          []litObs
-	litCap        int
-	nodeRequests  int64
-	genErrs       int
-	failures      []*Failure
-	scriptClose   int
-	m3only        int
+	mu           sync.Mutex
+	programs     int64
+	checks       int64
+	rejected     map[string]int
+	frontend     map[string]int
+	frontendEx   []map[string]string
+	batchOnly    int
+	byPos        map[string]int
+	byWrap       map[string]int
+	lits         []litObs
+	litCap       int
+	nodeRequests int64
+	genErrs      int
+	failures     []*Failure
+	scriptClose  int
+	m3only       int
 }
 
 type litObs struct {
@@ -627,8 +632,12 @@ func judge(pool *jsrun.Pool, cs []*compiled, f string, st *stats) ([]*Failure, e
 	if f == "es6" {
 		kind = "module"
 	}
-	for _, c := range cs {
-		req.Sources = append(req.Sources, jsrun.Source{Name: c.p.NS, Code: c.js[f], Kind: kind})
+	first := make([]int, len(cs)) // index of each program's first source
+	for i, c := range cs {
+		first[i] = len(req.Sources)
+		for k, code := range c.js[f] {
+			req.Sources = append(req.Sources, jsrun.Source{Name: fmt.Sprintf("%s#%d", c.p.NS, k), Code: code, Kind: kind})
+		}
 		fn := c.p.NS + ".main"
 		if f == "es6" {
 			fn = soyjs.ES6Identifier(fn)
@@ -647,7 +656,7 @@ func judge(pool *jsrun.Pool, cs []*compiled, f string, st *stats) ([]*Failure, e
 	for i, c := range cs {
 		p := c.p
 		fail := func(kind, detail, observed string) {
-			fails = append(fails, &Failure{Program: p, Formatter: f, Kind: kind, Detail: detail, JS: c.js[f], Observed: observed})
+			fails = append(fails, &Failure{Program: p, Formatter: f, Kind: kind, Detail: detail, JS: strings.Join(c.js[f], "\n//---- next file\n"), Observed: observed})
 		}
 		checks++
 		if e := c.genErr[f]; e != "" {
@@ -657,23 +666,33 @@ func judge(pool *jsrun.Pool, cs []*compiled, f string, st *stats) ([]*Failure, e
 			fail("generator-error", e, "")
 			continue
 		}
-		src := resp.Sources[i]
-		if src.Unsupported {
-			return nil, fmt.Errorf("engine cannot parse ES modules: %s", src.Err)
-		}
-		if !src.OK {
-			if src.Syntax {
-				fail("syntax-error", src.Err, "")
-			} else {
-				fail("load-throws", src.Err, "")
+		loaded := true
+		for k := range c.js[f] {
+			src := resp.Sources[first[i]+k]
+			if src.Unsupported {
+				return nil, fmt.Errorf("engine cannot parse ES modules: %s", src.Err)
 			}
+			if !src.OK {
+				if src.Syntax {
+					fail("syntax-error", src.Err, "")
+				} else {
+					fail("load-throws", src.Err, "")
+				}
+				loaded = false
+				break
+			}
+		}
+		if !loaded {
 			continue
 		}
 		checks++
 		var got []string
 		var want []string
 		if f == "es6" {
-			got = resp.Exports[p.NS]
+			for k := range c.js[f] {
+				got = append(got, resp.Exports[fmt.Sprintf("%s#%d", p.NS, k)]...)
+			}
+			sort.Strings(got)
 			for _, t := range p.Templates {
 				want = append(want, soyjs.ES6Identifier(t))
 			}
@@ -736,7 +755,7 @@ func extractLit(c *compiled) (litObs, bool) {
 	if p.Wrap != "top" || len(p.S) > 200 {
 		return litObs{}, false
 	}
-	lines := strings.Split(c.js["es5"], "\n")
+	lines := strings.Split(c.js["es5"][0], "\n")
 	start, end := -1, -1
 	for i, l := range lines {
 		if strings.HasPrefix(l, p.NS+".main = function") {
